@@ -168,3 +168,109 @@ def decode_grid(doc):
     for r in (doc.get('rows') or []):
         rows.append(tuple(decode_value(r.get(c), ver3) for c in names))
     return ('grid', ver, tuple((k, decode_value(v, ver3)) for k, v in meta.items() if k != 'ver'), tuple(cols), tuple(rows))
+
+
+# ---------------------------------------------------------------- executable reference writer with spelling variation (C05)
+def spellings_of(h, rnd=None):
+    """all (a sample of) legal Haystack-JSON spellings of the HVal tuple h -> list of JSON-able objects"""
+    k = h[0]
+    if k == 'null':
+        return [None]
+    if k == 'marker':
+        return ['m:']
+    if k == 'na':
+        return ['z:']
+    if k == 'remove':
+        return ['x:', '-:']
+    if k == 'bool':
+        return [h[1]]
+    if k == 'num':
+        v = h[1]
+        if v != v:
+            return ['n:NaN']
+        if v in (float('inf'), float('-inf')):
+            return ['n:INF' if v > 0 else 'n:-INF']
+        outs = ['n:%r' % v if 'e' not in repr(v) else 'n:' + repr(v).replace('e', 'E'), v]
+        if v == int(v) and abs(v) < 1e15:
+            outs += ['n:%d' % int(v), int(v), 'n:%de0' % int(v), 'n:%d.0E+0' % int(v)]
+        return outs
+    if k == 'qty':
+        return ['n:%r %s' % (h[1], h[2])] + (['n:%d %s' % (int(h[1]), h[2])] if h[1] == int(h[1]) else [])
+    if k == 'str':
+        t = h[1]
+        outs = ['s:' + t]
+        if len(t) < 2 or t[1] != ':':
+            outs.append(t)
+        return outs
+    if k == 'uri':
+        return ['u:' + h[1]]
+    if k == 'bin':
+        return ['b:' + h[1]]
+    if k == 'ref':
+        return ['r:' + h[1] + ('' if h[2] is None else ' ' + h[2])]
+    if k == 'date':
+        return ['d:%04d-%02d-%02d' % h[1:4]]
+    if k == 'time':
+        hh, mm, ss, us = h[1:5]
+        outs = []
+        if us:
+            outs.append('h:%02d:%02d:%02d.%06d' % (hh, mm, ss, us))
+            if us % 1000 == 0:
+                outs.append('h:%02d:%02d:%02d.%03d' % (hh, mm, ss, us // 1000))
+            outs.append('h:%02d:%02d:%02d.%06d000' % (hh, mm, ss, us))
+        else:
+            outs.append('h:%02d:%02d:%02d' % (hh, mm, ss))
+            if ss == 0:
+                outs.append('h:%02d:%02d' % (hh, mm))
+        return outs
+    if k == 'datetime':
+        utc, off, zone = h[1], h[2], h[3] if len(h) > 3 else None
+        local = utc + _dt.timedelta(seconds=off)
+        base = local.strftime('%Y-%m-%dT%H:%M:%S') + (('.%06d' % local.microsecond) if local.microsecond else '')
+        offs = ['%s%02d:%02d' % ('+' if off >= 0 else '-', abs(off) // 3600, abs(off) % 3600 // 60)]
+        if off == 0:
+            offs.append('Z')
+        outs = []
+        for o in offs:
+            if zone:
+                outs.append('t:%s%s %s' % (base, o, zone))
+            outs.append('t:%s%s' % (base, o))
+        return outs
+    if k == 'coord':
+        return ['c:%r,%r' % (h[1], h[2]), 'c:%.6f,%.6f' % (h[1], h[2])]
+    if k == 'xstr':
+        enc, data = h[1], h[2]
+        if enc == 'hex':
+            return ['x:hex:' + data.hex()]
+        if enc == 'b64':
+            import base64
+            return ['x:b64:' + base64.b64encode(data).decode('ascii')]
+        return ['x:%s:%s' % (enc, data)]
+    if k == 'list':
+        return [[spellings_of(x)[0] for x in h[1]]]
+    if k == 'dict':
+        return [{kk: spellings_of(x)[0] for kk, x in h[1]}]
+    if k == 'grid':
+        return [encode_grid(h)]
+    raise ValueError(h)
+
+
+def encode_grid(h, choose=None, rows_style='full'):
+    choose = choose or (lambda opts: opts[0])
+    _, ver, meta, cols, rows = h
+    doc = {'meta': dict([('ver', ver)] + [(k, choose(spellings_of(v))) for k, v in meta]),
+           'cols': [dict([('name', c)] + [(k, choose(spellings_of(v))) for k, v in cm]) for c, cm in cols]}
+    names = [c for c, _ in cols]
+    rr = []
+    for r in rows:
+        d = {}
+        for c, v in zip(names, r):
+            if v == ('null',) and rows_style == 'omit_nulls':
+                continue
+            d[c] = choose(spellings_of(v))
+        rr.append(d)
+    if rows or rows_style == 'full':
+        doc['rows'] = rr
+    elif rows_style == 'null':
+        doc['rows'] = None
+    return doc
